@@ -37,7 +37,7 @@ ASSUMPTIONS = [
   'exceptions are injected at callback boundaries of module bodies, not between two bytecodes of flax itself',
   'all arithmetic is small integers in float32, so byte comparison is exact however XLA fuses',
 ]
-PROBES = ['fault_in_setup_or_body', 'write_outside_filter_raises', 'write_inside_filter_ok', 'repeat_checked', 'memo_hit_after_fault', 'frozen_returns', 'bind_unbind', 'core_api', 'observe_capture', 'observe_strip_sow', 'observe_no_perturb_col', 'collections_rule_checked', 'inner_module_attr', 'gc_event', 'context_intercept', 'context_named_call_on', 'context_named_call_off', 'context_tabulate', 'concurrent_interleaved', 'inner_from_bound_model', 'inner_below_unbound_container']
+PROBES = ['fault_in_setup_or_body', 'write_outside_filter_raises', 'write_inside_filter_ok', 'repeat_checked', 'memo_hit_after_fault', 'frozen_returns', 'bind_unbind', 'core_api', 'observe_capture', 'observe_strip_sow', 'observe_no_perturb_col', 'collections_rule_checked', 'inner_module_attr', 'gc_event', 'context_intercept', 'context_named_call_on', 'context_named_call_off', 'context_tabulate', 'concurrent_interleaved', 'inner_from_bound_model', 'inner_below_unbound_container', 'route_nn_init', 'route_nn_apply', 'route_method_str', 'route_method_fn']
 
 errors = None
 
@@ -93,9 +93,11 @@ def generate(rs, tier):
     r = g.random()
     base = dict(prog=g.randrange(nprog), vars=g.randrange(8), seed=g.randrange(5), batch=g.choice([1, 2, 3]), fill=g.randrange(3))
     if r < 0.1:
-      ops.append(dict(base, op='init', with_output=g.random() < 0.5, fault=({'at': g.randrange(64)} if g.random() < 0.3 else None)))
+      ops.append(dict(base, op='init', with_output=g.random() < 0.5, fault=({'at': g.randrange(64)} if g.random() < 0.3 else None), via=g.choice(['init', 'init', 'nn_init'])))
     elif r < 0.55:
       op = dict(base, op='apply', mutable=gen_filter(g), repeat=g.choice([1, 1, 2, 3]))
+      # the same call through the other public routes: nn.apply(fn, module), method='__call__', method=callable
+      op['vias'] = [g.choice(['apply', 'apply', 'nn_apply', 'method_str', 'method_fn']) for _ in range(op['repeat'])]
       f = g.random()
       if f < 0.22:
         op['fault'] = {'at': g.randrange(64)}
@@ -305,6 +307,10 @@ class LWorld:
     if k == 'init':
       rngs = self.rngs(self.specs(pi), op['seed'], True)
       fn = (lambda: m.init_with_output(rngs, x)) if op['with_output'] else (lambda: (None, m.init(rngs, x)))
+      if op.get('via') == 'nn_init':
+        call = lambda mod, xx: mod(xx)  # noqa: E731
+        fn = (lambda: nn.init_with_output(call, m)(rngs, x)) if op['with_output'] else (lambda: (None, nn.init(call, m)(rngs, x)))
+        res.probe('route_nn_init')
       out = self.guarded(oi, 'init', fn)
       if out[0] != 'ok':
         raise Violation('unexpected-exception', f'op {oi} init raised {type(out[1]).__name__}: {out[1]}')
@@ -345,11 +351,22 @@ class LWorld:
         wsp = dict(spec, body=spec['body'] + [dict(i='write', col=op['write']['col'], name=op['write']['name'])])
         use = P.make(wsp, inner=m.inner)
         touched.add(op['write']['col'])
-      fn = lambda: use.apply(v, x, rngs=rngs, mutable=rF)
+      call = lambda mod, xx: mod(xx)  # noqa: E731
+      routes = {
+        'apply': lambda: use.apply(v, x, rngs=rngs, mutable=rF),
+        'nn_apply': lambda: nn.apply(call, use, mutable=rF)(v, x, rngs=rngs),
+        'method_str': lambda: use.apply(v, x, rngs=rngs, mutable=rF, method='__call__'),
+        'method_fn': lambda: use.apply(v, x, rngs=rngs, mutable=rF, method=call),
+      }
+      fn = routes['apply']
       key = ('apply', pi, j, op['seed'], op['fill'], repr(F), repr(op.get('write')))
       first = None
+      vias = op.get('vias') or ['apply'] * op['repeat']
       for rep in range(op['repeat']):
-        out = self.guarded(oi, 'apply', fn)
+        via = vias[rep % len(vias)]
+        if via != 'apply':
+          res.probe('route_' + via)
+        out = self.guarded(oi, 'apply', routes[via])
         if op.get('write') and not in_filter(F, op['write']['col']):
           if out[0] != 'exc' or not isinstance(out[1], errors.ModifyScopeVariableError):
             raise Violation('write-outside-filter-accepted', f'op {oi}: writing collection {op["write"]["col"]!r} with mutable={F!r} did not raise ModifyScopeVariableError ({out[0]}: {out[1] if out[0] == "exc" else "returned"})')
